@@ -721,7 +721,14 @@ def oracle_c04(r):
                     out.append(('request %s: adapter raised %s but the reply is %r' % (l.wire_id, l.outcome[1], lines[0][1][:80]), {'kind': 'reply_status', 'method': l.method}))
                 if not raised and is_err:
                     out.append(('request %s: adapter returned normally but the reply is %r' % (l.wire_id, lines[0][1][:80]), {'kind': 'reply_status', 'method': l.method}))
-        if names != want_names:
+        # the property fixes WHICH methods are invoked (each once), not the order among the methods of one request
+        if raised:
+            rest = list(exp)
+            sub = all((n in rest and (rest.remove(n) or True)) for n in names)
+            bad_calls = not sub or len(names) != len(want_names)
+        else:
+            bad_calls = sorted(names) != sorted(want_names)
+        if bad_calls:
             out.append(('request %s (%s): adapter calls %r, expected %r' % (l.wire_id, l.method, names, want_names), {'kind': 'dispatch', 'method': l.method}))
     if quiescent_ok(r) and not closes and sc.handler is not None:
         wrong = [l for l in served if l.outcome == 'wrong' and l.method in WRONG_FOR and WRONG_FOR[l.method] in expected_calls(l)]
